@@ -827,6 +827,11 @@ func boundaryPackets() []*mpkt {
 		}
 		add(m)
 	}
+	// section sizes around the octet and 16-bit boundaries of the four count words (empty RDATA)
+	none := func(i int) []byte { return nil }
+	for _, counts := range [][4]int{{255, 0, 0, 0}, {256, 0, 0, 0}, {1, 255, 0, 0}, {1, 0, 256, 0}, {1, 0, 0, 257}, {0, 300, 256, 1000}, {1, 65535, 0, 0}, {1, 0, 0, 65535}, {0, 0, 65534, 0}, {65535, 0, 0, 0}} {
+		add(build(uint16(0x4000+len(out)), 0x8500, rep([]ent{host}, counts[0]), [3][]ent{rep([]ent{host, wg}, counts[1]), rep([]ent{wg}, counts[2]), rep([]ent{host}, counts[3])}, none))
+	}
 	for _, n := range rdLens {
 		rd := func(i int) []byte {
 			b := bytes.Repeat([]byte{0x5A}, n)
